@@ -13,6 +13,9 @@ correspondence: Regex.matchStr vs regexp.MatchString on strings drawn from every
                 ExportBinary / ExportBinaryNBits / ExportVerilogBinary on integer-like literals (all
                 widths 1..64, boundary values).  The property itself (unique matcher; round trip;
                 widths) is evaluated on every implementation line.
+options:        every export case is repeated with BMNumberConfig{OmitPrefix: true} (the only field of the
+                export config; cmd/bmnumbers -omit-prefix): the text must be the full text minus the type
+                prefix, and ShowPrefix() + text must import to the same value, width and type.
 entry points:   ImportUint (uint8/16/32/64, optionalBits), ImportBytes (+CastType) and ExportUint64 are
                 exercised on byte-distinct 64-bit values and compared with BMV.Numbers.importUint /
                 importBytes / exportUint64; the property is judged against the case's input value.
@@ -186,6 +189,36 @@ def ambiguity_violation(rep, hbin, h, rows, source):
 
 # ------------------------------------------------------------------ numbers side
 
+PREFIX = {"unsigned": "0u", "signed": "0s", "hex": "0x", "bin": "0b"}
+
+
+def omit_eval(f, ty, bits, val, es, what):
+    """the export option OmitPrefix, judged on one implementation line: the text with the option must be the
+    full text without its type prefix, and prefix + that text must import to the same value, width and type.
+    f: fields op/ort/orty/orbits/orbytes; val = integer value of the bytes.  -> list of (class, text)"""
+    pre = PREFIX.get(ty)
+    op = f.get("op")
+    if op is None or es in (None, "!err"):
+        return []
+    if op == "hex:":
+        op = ""
+    if pre is not None:
+        want = es[len(pre):] if es.startswith(pre) else es
+        if op != want:
+            return [("omit-prefix", "%s: ExportString(OmitPrefix) = %r, expected %r (full text %s)" % (what, op, want, es))]
+    if f.get("ort") != "ok":
+        return [("omit-prefix", "%s: ExportString(OmitPrefix) = %r; prefix + it does not import (full text %s)" % (what, op, es))]
+    same_val = le_val(f.get("orbytes", "-")) == val
+    if f.get("orty") != ty or not same_val:
+        return [("omit-prefix", "%s: ExportString(OmitPrefix) = %r; prefix + it imports as ty=%s bytes=%s (full text %s)"
+                 % (what, op, f.get("orty"), f.get("orbytes"), es))]
+    if f.get("orbits") != str(bits):
+        if ty == "unsigned" and str(bits) != "64" and f.get("orbits") == "64":
+            return []   # the width loss of unsigned texts is reported by the plain round trip (K_UNSIGNED)
+        return [("omit-prefix", "%s: prefix + %r imports with bits %s, expected %s" % (what, op, f.get("orbits"), bits))]
+    return []
+
+
 def eval_case(f, inp_hex):
     """property evaluated on one implementation C line (dict f). -> list of (class, text)"""
     fails = []
@@ -232,6 +265,7 @@ def eval_case(f, inp_hex):
                 fails.append((K_UNSIGNED, "%s -> ExportString %s -> bits %s" % (inp, es, f.get("rbits"))))
             else:
                 fails.append(("roundtrip", "%s -> %s -> ty=%s bits=%s bytes=%s" % (inp, es, f.get("rty"), f.get("rbits"), f.get("rbytes"))))
+    fails += omit_eval(f, ty, bits, le_val(by), es, inp)
     return fails
 
 
@@ -340,6 +374,8 @@ def compare_uints(impl, model):
                 fails.append(("roundtrip", "%s -> %s -> bits %s" % (case, es, f.get("rbits")), case, l))
         else:
             st["roundtrips_ok"] += 1
+        for c, t in omit_eval(f, ty, bits, v, es, case):
+            fails.append((c, t, case, l))
     return st, fails, mism
 
 
@@ -361,6 +397,26 @@ def eval_floats(text):
             st["rt_ok"] += 1
             fm["ok"] += 1
             st["distinct"].add((f.get("ty"), f.get("bytes")))
+            if "op" in f:
+                st["omit_prefix_evals"] = st.get("omit_prefix_evals", 0) + 1
+                okk = f.get("ort") == "ok" and f.get("orty") == f.get("ty") and f.get("orbits") == f.get("bits") \
+                    and f.get("orbytes") == f.get("bytes")
+                if not okk:
+                    cls = "omit-prefix"
+                    try:   # the quantiser's band truncation shows through this path as well
+                        if fam == "lqs" and f.get("ort") == "ok" and f.get("orty") == f.get("ty") and f.get("orbits") == f.get("bits"):
+                            b = int(f["bits"])
+                            v, r = le_val(f["bytes"]), le_val(f["orbytes"])
+                            sv = v - (1 << b) if v >> (b - 1) else v
+                            sr = r - (1 << b) if r >> (b - 1) else r
+                            if abs(sv) - abs(sr) == 1:
+                                cls = K_LQ
+                    except (ValueError, KeyError):
+                        pass
+                    fails.append((cls, "%s %s: ExportString(OmitPrefix) = %r (full text %s); prefix + it imports as %s" % (
+                        fam, lit, f.get("op"), f.get("es"),
+                        "ty=%s bits=%s bytes=%s" % (f.get("orty"), f.get("orbits"), f.get("orbytes")) if f.get("ort") == "ok" else f.get("ort")),
+                        fam, lit))
         elif verdict.startswith("imp-"):
             st["import_rejected"] += 1
             fm["rejected"] += 1
@@ -621,7 +677,8 @@ def run(rep):
         "pairs_checked": len(rows) * (len(rows) - 1) // 2,
         "pairs_not_disjoint": [[i, j, v] for i, j, v, _ in pairs_bad],
         "unmodelled": ["float16/float32/fixed point/FXP/linear quantiser import+export (Go-side search only)",
-                       "FloPoCo import/export (external fp2bin/bin2fp)", "BMNumberConfig.OmitPrefix",
+                       "FloPoCo import/export (external fp2bin/bin2fp)",
+                       "cmd/bmnumbers flags other than -omit-prefix (-show, -with-size, -cast, -convert: CLI presentation, not the library's export config)",
                        "LoadLinearDataRangesFromFile (the harness sets the ranges map directly)", "serve.go HTTP front end",
                        "CastType to sized (float/dynamic) types is used by the pattern-first search but not modelled",
                        "negative widths of ExportBinaryNBits"],
